@@ -26,9 +26,11 @@ import (
 type ev map[string]any
 
 var (
-	w      *bufio.Writer
-	nev    int
-	npanic int
+	w       *bufio.Writer
+	ws      []*bufio.Writer // -split: line i of the run goes to chunk i mod len(ws)
+	nev     int
+	npanic  int
+	nanswer int
 )
 
 func emit(e ev) {
@@ -36,9 +38,22 @@ func emit(e ev) {
 	if err != nil {
 		fatal(err)
 	}
-	w.Write(b)
-	w.WriteByte('\n')
+	o := w
+	if len(ws) > 0 {
+		o = ws[nev%len(ws)]
+	}
+	o.Write(b)
+	o.WriteByte('\n')
 	nev++
+	if p, ok := e["probes"].([][]int); ok {
+		if e["ev"] == "str" {
+			nanswer += 15 + 2*len(p)
+		} else {
+			nanswer += 13 + len(p)
+		}
+	} else {
+		nanswer += 8
+	}
 }
 
 func fatal(err error) {
@@ -496,12 +511,24 @@ func main() {
 	fuzz := flag.Int("fuzz", 0, "number of seeded random strings, pairs and contents")
 	seed := flag.Int64("seed", 1, "seed")
 	out := flag.String("out", "trace.ndjson", "trace output")
+	split := flag.Int("split", 0, "write the trace round-robin into this many files <out>.<k> instead of <out>")
 	flag.Parse()
-	f, err := os.Create(*out)
-	if err != nil {
-		fatal(err)
+	var files []*os.File
+	mk := func(path string) *bufio.Writer {
+		f, err := os.Create(path)
+		if err != nil {
+			fatal(err)
+		}
+		files = append(files, f)
+		return bufio.NewWriterSize(f, 1<<20)
 	}
-	w = bufio.NewWriterSize(f, 1<<20)
+	if *split > 0 {
+		for k := 0; k < *split; k++ {
+			ws = append(ws, mk(fmt.Sprintf("%s.%d", *out, k)))
+		}
+	} else {
+		w = mk(*out)
+	}
 	each := func(path string, fn func([]byte)) {
 		in, err := os.Open(path)
 		if err != nil {
@@ -565,7 +592,13 @@ func main() {
 			emit(obsHash(c))
 		}
 	}
-	w.Flush()
-	f.Close()
-	fmt.Printf("events=%d panics=%d\n", nev, npanic)
+	for _, o := range append(ws, w) {
+		if o != nil {
+			o.Flush()
+		}
+	}
+	for _, f := range files {
+		f.Close()
+	}
+	fmt.Printf("events=%d panics=%d answers=%d\n", nev, npanic, nanswer)
 }
